@@ -34,4 +34,22 @@ PROPS = {
         "trusted_base": COMMON_TB + ["modelled, not verified: omaha-client/src/version.rs (FromStr, Display, From<[u32;n]>, Ord, serde), "
                                      "Rust u32::from_str, itertools::format"],
     },
+    "C19": {
+        "run": ["EvalC19"],
+        "n": {"quick": 2000, "thorough": 40000},
+        "level_text": "Every clause is a theorem about the Gallina model of the time helpers for all Z (i64 / nanosecond) values: "
+                      "from->to identity on all of i64; to_micros = truncation toward the epoch (Z.quot), None iff it does not fit; store/reload = truncation; "
+                      "the truncation helper equals that round trip and is idempotent; partial/complete times keep their components under add/sub/complete_with/"
+                      "destructure; is_after_or_eq_any iff a shared component is reached.  Model tied to the code by differential runs on boundary grids and random values.",
+        "level_note": "Proved for the model, unbounded.  std::time arithmetic is modelled as exact integer arithmetic inside the platform range (inputs that make "
+                      "std panic on overflow are outside the property's quantifier).  Model = code is sampled (boundary grid exhaustive).",
+        "diff_meaning": "The theorems of Props/C19.v determine every result uniquely; an input where the real conversion / truncation / two-clock operation "
+                        "differs from the model is an input on which the property fails.",
+        "rule": "grid: (+-k us +- {0,1,999,500} ns, k<=3) x {to_micros, truncate, store_reload}; i64 micro extremes +-2 for both conversions; then random "
+                "instants (8 magnitude classes up to the platform limit), random i64 micros, the 3 partial-time shapes with near-equal components.  distinct = distinct input.",
+        "assumptions": ["std::time::{SystemTime,Instant,Duration} arithmetic is exact within range on Linux",
+                        "MemStorage stores i64 values faithfully"],
+        "trusted_base": COMMON_TB + ["modelled, not verified: time.rs (truncate_submicrosecond_walltime, is_after_or_eq_any, complete_with, destructure), "
+                                     "time/complex.rs (Add/Sub impls, system_time_conversion), storage.rs (get_time/set_time)"],
+    },
 }
